@@ -154,6 +154,9 @@ class KernelAnalysis:
         self.wlog = []      # writes: (array, ('idx', Aff) | ('fam', start, step, length), seq, loops, stmt)
         self.rlog = []      # reads : Read objects actually consumed by a store
         self._init_params(graded_params)
+        for ds in extra_dsyms:
+            # a parameter that receives the caller's truncation degree (number of coefficients)
+            self.aff_env[ds] = Aff.var('#D')
 
     # ------------------------------------------------------------------ setup
     def _init_params(self, graded_params):
@@ -488,7 +491,7 @@ class KernelAnalysis:
         # is this an order loop?  (its variable appears in the axis-0 index of a store into a graded array)
         stored = self._stored_arrays(st, st.target.id)
         ctx = {'var': var, 'stored': stored, 'assigned': set(), 'desc': desc, 'node': st,
-               'aff': order_aff if order_aff is not None else Aff.var(var)}
+               'aff': order_aff if order_aff is not None else Aff.var(var), 'offs': dict(self._last_store_offsets)}
         self.order_ctx.append(ctx)
         # two passes so that work arrays reach their steady-state weight; issues from the last pass only
         n_issues, n_unk = len(self.issues), len(self.unknown)
@@ -509,6 +512,7 @@ class KernelAnalysis:
 
     def _stored_arrays(self, st, var):
         out = {}
+        self._last_store_offsets = offs = {}
         for n in ast.walk(st):
             tg = []
             if isinstance(n, ast.Assign):
@@ -527,6 +531,17 @@ class KernelAnalysis:
                             first = tt.slice.elts[0] if isinstance(tt.slice, ast.Tuple) and tt.slice.elts else tt.slice
                             if any(isinstance(x, ast.Name) and x.id == var for x in ast.walk(first)):
                                 out.setdefault(nm, n.lineno)
+                                # offset c of a store index of the form var + c (None: any other form)
+                                c_ = None
+                                if isinstance(first, ast.Name):
+                                    c_ = 0
+                                elif isinstance(first, ast.BinOp) and isinstance(first.op, (ast.Add, ast.Sub)) and isinstance(first.left, ast.Name) \
+                                        and first.left.id == var and isinstance(first.right, ast.Constant) and isinstance(first.right.value, int):
+                                    c_ = first.right.value if isinstance(first.op, ast.Add) else -first.right.value
+                                elif isinstance(first, ast.BinOp) and isinstance(first.op, ast.Add) and isinstance(first.right, ast.Name) \
+                                        and first.right.id == var and isinstance(first.left, ast.Constant) and isinstance(first.left.value, int):
+                                    c_ = first.left.value
+                                offs.setdefault(nm, set()).add(c_)
         return out
 
     def _walk_opaque(self, st):
@@ -1522,6 +1537,12 @@ class KernelAnalysis:
             if ctx['aff'] == e:
                 ctx['assigned'].add(g.name)
                 return
+            offs = ctx.get('offs', {}).get(g.name)
+            d_ = e - ctx['aff']
+            if offs is not None and len(offs) == 1 and None not in offs and d_.is_const and d_.c == list(offs)[0]:
+                # the array's only store in this order loop is at index order + c: that entry is now assigned
+                ctx['assigned'].add(g.name)
+                return
 
     def _store_family(self, g, start, step, length, v, st, aug, target):
         """whole-array / slice store: position-wise weights must agree"""
@@ -1664,6 +1685,18 @@ class KernelAnalysis:
         if ctx is None:
             return W, 'input'
         asg = read.asg if read is not None else ctx['assigned']
+        # the loop stores arr[v + c_a] and is defining target[v + c_t] = weight W: after the previous iteration arr is
+        # complete up to v + c_a - 1 (up to v + c_a once assigned in this iteration); never more than W (causality)
+        offs = ctx.get('offs', {}).get(arr)
+        c_t = W - ctx['aff']
+        ga_ = self.gvars.get(arr)
+        off_a = ga_.off if ga_ is not None else Aff.const(0)
+        if offs is not None and len(offs) == 1 and None not in offs and c_t.is_const and off_a.is_const \
+                and (list(offs)[0] + off_a.c - c_t.c) != 0:
+            delta = list(offs)[0] + off_a.c - c_t.c
+            if arr in asg:
+                return (W + min(delta, 0)), 'assigned earlier in this iteration up to index order%+d' % delta
+            return (W + min(delta - 1, 0)), 'defined in this loop at index order%+d, not yet assigned in this iteration' % delta
         if arr in asg:
             return W, 'assigned earlier in this iteration'
         return W - 1, 'defined in this loop, not yet assigned for this order'
